@@ -387,7 +387,7 @@ def run(ctx):
             ok = isinstance(u, ast.Constant) and u.value is True
     ctx.check(ok, "R03.6", mm.relpath + "::StudyModel", "unique:study_name",
               message="StudyModel.study_name is not unique: two concurrent create_new_study calls with one name both succeed", how="unique=True")
-    ctx.floor("R03.6", "unique_constraints", n_u, 9)
+    ctx.floor("R03.6", "unique_constraints", n_u, 9, exact=True)
     # create_new_study turns the resulting IntegrityError into DuplicatedStudyError
     f = p.lookup_method(rdb, "create_new_study")
     hs = [h for h in own_nodes(f.node) if isinstance(h, ast.ExceptHandler) and "IntegrityError" in norm(h.type)]
